@@ -443,6 +443,10 @@ Fixpoint hx (s : string) : string :=
   | _ => ""
   end.
 
+(* long, mostly constant byte strings (array buffers) written run-length encoded by the harness: rpN 9999 (hx "..") *)
+Fixpoint rp (n : nat) (s : string) : string := match n with 0 => "" | S k => s ++ rp k s end.
+Definition rpN (n : N) (s : string) : string := rp (N.to_nat n) s.
+
 (* the oracle the correspondence run uses for [H]: the (byte string -> digest) pairs the implementation
    produced with blake2b while hashing the same values; a byte string outside the table maps to "?" *)
 Fixpoint table_H (t : list (string * string)) (s : string) : string :=
